@@ -71,7 +71,8 @@ pub struct RegexSearcher<'r, 't> {
 
 /// the last match of the regex's match sequence on `text` that ends at or before offset pos (contract of
 /// find_last_match_before; assumed here: its `for m in find_from(..)` loop is outside what Verus accepts; checked, bounded, by the Kani obligation
-/// j6_find_last_match_before)
+/// j6_find_last_match_before; since session 4 the loop IS verified, unbounded, by the unit cv_last_match through vstd's iterator
+/// protocol: is_last_before(match_seq(regex, haystack, 0), pos, result))
 pub uninterp spec fn last_match_before(re: &Regex, text: &str, pos: int) -> Option<Match>;
 
 impl<'r, 't> RegexSearcher<'r, 't> {
